@@ -84,7 +84,19 @@ pub fn take_stderr(ppath: &str) -> String {
     let _ = std::fs::write(&p, b"");
     let s = String::from_utf8_lossy(&s).to_string();
     let s = s.trim().to_string();
-    if s.len() > 400 { s[s.len() - 400..].to_string() } else { s }
+    if s.len() > 500 {
+        let mut a = 300;
+        while !s.is_char_boundary(a) {
+            a -= 1;
+        }
+        let mut b = s.len() - 150;
+        while !s.is_char_boundary(b) {
+            b += 1;
+        }
+        format!("{} ... {}", &s[..a], &s[b..])
+    } else {
+        s
+    }
 }
 
 #[derive(Default, Debug)]
@@ -295,6 +307,9 @@ pub fn stats_json(s: &DrvStats) -> Json {
 pub fn die_with_parent() {
     unsafe {
         libc::prctl(libc::PR_SET_PDEATHSIG, libc::SIGKILL);
+        // an aborting worker must die quickly: no core dump
+        let rl = libc::rlimit { rlim_cur: 0, rlim_max: 0 };
+        libc::setrlimit(libc::RLIMIT_CORE, &rl);
     }
 }
 
